@@ -33,6 +33,11 @@ pub struct CfgSpec {
     /// `None` = Rectangle, `Some(bits)` = Tukey { alpha: f32::from_bits(bits) }.
     pub window: Option<u32>,
     pub max_parameter: usize,
+    /// `config.block_size` when it differs from the `block_size` ARGUMENT of the entry points (the
+    /// library documents the argument as the block size; the configuration field is then not used).
+    /// `None` = the configuration field equals `block_size`.
+    #[serde(default, skip_serializing_if = "Option::is_none")]
+    pub cfg_block: Option<usize>,
 }
 
 impl Default for CfgSpec {
@@ -55,6 +60,7 @@ impl Default for CfgSpec {
             mae_steps: 0,
             window: Some(0.4f32.to_bits()),
             max_parameter: 14,
+            cfg_block: None,
         }
     }
 }
@@ -62,7 +68,7 @@ impl Default for CfgSpec {
 impl CfgSpec {
     pub fn to_encoder(&self) -> config::Encoder {
         let mut c = config::Encoder::default();
-        c.block_size = self.block_size;
+        c.block_size = self.cfg_block.unwrap_or(self.block_size);
         c.multithread = self.multithread;
         c.workers = self.workers.and_then(std::num::NonZeroUsize::new);
         c.stereo_coding.use_leftside = self.ls;
@@ -117,6 +123,7 @@ impl CfgSpec {
                 _ => None,
             },
             max_parameter: c.subframe_coding.prc.max_parameter,
+            cfg_block: None,
         }
     }
 
@@ -304,6 +311,18 @@ pub fn cfg_strategy(o: CfgOpts) -> BoxedStrategy<CfgSpec> {
             mae_steps: mae,
             window: w,
             max_parameter: mp,
+            cfg_block: None,
+        })
+        .boxed()
+}
+
+/// With probability ~0.3 the configuration's own `block_size` field differs from the block-size
+/// argument the case passes to the entry points (any valid value).
+pub fn with_cfg_block(s: BoxedStrategy<CfgSpec>) -> BoxedStrategy<CfgSpec> {
+    (s, prop_oneof![7 => Just(None), 3 => block_size_strategy(32767).prop_map(Some)])
+        .prop_map(|(mut c, b)| {
+            c.cfg_block = b.filter(|x| *x != c.block_size);
+            c
         })
         .boxed()
 }
@@ -343,6 +362,9 @@ pub struct InputSpec {
     /// 0 independent, 1 identical, 2 negated, 3 L + tiny noise, 4 one channel silent
     pub rel: u8,
     pub seed: u64,
+    /// explicit interleaved samples (fuzz-produced cases); when set, `chans` / `rel` / `seed` are ignored
+    #[serde(default, skip_serializing_if = "Option::is_none")]
+    pub explicit: Option<Vec<i32>>,
 }
 
 fn amp_value(amp: u8, p: u32, bps: usize) -> i64 {
@@ -510,6 +532,11 @@ impl InputSpec {
 
     /// Interleaved samples, every value inside the declared width.
     pub fn samples(&self) -> Vec<i32> {
+        if let Some(e) = &self.explicit {
+            let lo = -(1i64 << (self.bps - 1));
+            let hi = (1i64 << (self.bps - 1)) - 1;
+            return e.iter().take(self.len * self.channels).map(|x| (*x as i64).clamp(lo, hi) as i32).collect();
+        }
         let lo = -(1i64 << (self.bps - 1));
         let hi = (1i64 << (self.bps - 1)) - 1;
         let mut chans: Vec<Vec<i32>> = (0..self.channels).map(|c| self.channel(c)).collect();
@@ -544,6 +571,9 @@ impl InputSpec {
             .take(self.channels)
             .map(|c| c.segs.iter().map(|s| SIG_CLASSES[s.class as usize % SIG_CLASSES.len()]).collect::<Vec<_>>().join("/"))
             .collect();
+        if self.explicit.is_some() {
+            return format!("ch={} bps={} rate={} len={} [explicit samples]", self.channels, self.bps, self.rate, self.len);
+        }
         format!("ch={} bps={} rate={} len={} rel={} [{}]", self.channels, self.bps, self.rate, self.len, self.rel, cls.join(","))
     }
 }
@@ -635,14 +665,14 @@ pub fn input_strategy(block: usize, o: InOpts) -> BoxedStrategy<InputSpec> {
                 len_strategy(block, per_ch),
                 proptest::collection::vec(chan_strategy(o.heavy), channels..=channels),
             )
-                .prop_map(move |(len, chans)| InputSpec { channels, bps, rate, len, chans, rel, seed })
+                .prop_map(move |(len, chans)| InputSpec { channels, bps, rate, len, chans, rel, seed, explicit: None })
         })
         .boxed()
 }
 
 /// (config, input) pairs with the block size shared.
 pub fn cfg_input_strategy(co: CfgOpts, io: InOpts) -> BoxedStrategy<(CfgSpec, InputSpec)> {
-    cfg_strategy(co)
+    with_cfg_block(cfg_strategy(co))
         .prop_flat_map(move |cfg| {
             let b = cfg.block_size;
             (Just(cfg), input_strategy(b, io))
@@ -671,7 +701,7 @@ pub fn lpc_stress_input_strategy(block: usize) -> BoxedStrategy<InputSpec> {
     )
         .prop_flat_map(move |(channels, bps, rate, seed, rel)| {
             (len_strategy(block, (16_000 / channels).max(block)), proptest::collection::vec(chan(), channels..=channels))
-                .prop_map(move |(len, chans)| InputSpec { channels, bps, rate, len, chans, rel, seed })
+                .prop_map(move |(len, chans)| InputSpec { channels, bps, rate, len, chans, rel, seed, explicit: None })
         })
         .boxed()
 }
